@@ -48,6 +48,9 @@ def Int_ToLegacyDec (a : Int) : Dec := Dec.ofInt a
 def I64_wrap (x : Int) : Int := (x + 9223372036854775808).emod 18446744073709551616 - 9223372036854775808
 /-- `uint64(x)` of an int64 -/
 def U64_ofI64 (x : Int) : Nat := (x.emod 18446744073709551616).toNat
+/-- uint64 addition / subtraction wrap modulo 2^64 (operands are uint64 values) -/
+def U64_Add (a b : Nat) : Nat := (a + b) % 18446744073709551616
+def U64_Sub (a b : Nat) : Nat := (a + 18446744073709551616 - b % 18446744073709551616) % 18446744073709551616
 def I64_Add (a b : Int) : Int := I64_wrap (a + b)
 def I64_Sub (a b : Int) : Int := I64_wrap (a - b)
 
